@@ -697,6 +697,37 @@ func WaitIdle() {
 	}
 }
 
+// WaitQuiescent returns once no other task is runnable AND no one-shot timer
+// (a sleeping stub, a stalled task) is pending: whatever is still parked then
+// stays parked until somebody else acts.
+//
+//go:norace
+func WaitQuiescent() {
+	k := K
+	for {
+		WaitIdle()
+		next := int64(-1)
+		for _, tm := range k.timers {
+			if !tm.stopped && tm.harness && (next < 0 || tm.due < next) {
+				next = tm.due
+			}
+		}
+		for _, t := range k.tasks {
+			if t != k.cur && t.state == stRunnable && t.stallTo > k.now && (next < 0 || t.stallTo < next) {
+				next = t.stallTo
+			}
+		}
+		if next < 0 {
+			return
+		}
+		d := next - k.now
+		if d < 1 {
+			d = 1
+		}
+		Sleep(d)
+	}
+}
+
 // Now returns simulated nanoseconds since the simulation epoch.
 //
 //go:norace
